@@ -1,12 +1,14 @@
 """Registry: unit id -> (builder, properties served); property id -> info for the evidence file."""
-from . import u01_results
+from . import u01_results, u05_arith_eval
 
 UNITS = {
     'U1': (u01_results.build, u01_results.PROPS),
+    'U5': (u05_arith_eval.build, u05_arith_eval.PROPS),
 }
 
 PROPERTIES = {
     'C01': {'level': 'proof'},
     'C02': {'level': 'proof'},
     'C03': {'level': 'proof'},
+    'C07': {'level': 'proof'},
 }
